@@ -2,7 +2,7 @@
 exact-length and limit guards, exception codes at the decision points, reply construction tables)."""
 from core import rule, loc_of
 from facts import AnchorLost, norm
-import q, effects
+import q, effects, inline
 from tables import *
 from rules.c08 import (one, hf, IS_AUTH, PARSE, GET_REPLY, EXECUTE, INTO_BC, HGET, HITER, LOCK, WIRE_WRITE, REPLY_ERR, REPLY_ERR_G)
 
@@ -290,7 +290,8 @@ def r6(c):
 @rule('C01', 'R01.7', 'exception codes at the three decision points of handle_frame; exception function byte = function | 0x80')
 def r7(c):
     P = c.P
-    b = hf(c)
+    # reply_with_error is a thin wrapper of reply_with_error_generic: look at handle_frame with it expanded
+    b = inline.expand(P, hf(c), {REPLY_ERR})
     E = effects.get(P)
     rd = [cs for cs in b.calls('scursor::read::ReadCursor::read_u8')]
     rd = one(rd, 'read_u8 of the function byte')
@@ -325,20 +326,15 @@ def r7(c):
     c.ob('parse-error/edge', len(pe) == 1, 'the result of Request::parse is checked', str(pe), parse.loc())
     for e in pe:
         eff = effect_calls_from(e)
-        ok = len(eff) == 1 and eff[0].is_(REPLY_ERR)
+        ok = len(eff) == 1 and eff[0].is_(REPLY_ERR_G)
         if ok:
             cs = eff[0]
             ex = q.agg_variant_of(b, cs.args[4])
-            f = q.sem(b, cs.args[3])
+            ff = q.sem(b, cs.args[3])
+            f = q.sem(b, ff.extra['a'][0]) if (ff.kind == 'agg' and ff.extra.get('variant') == 'Exception' and norm(ff.extra.get('adt', '')) == 'rodbus::common::frame::FunctionField' and not ff.proj) else None
             h = q.sem(b, cs.args[2])
-            ok = ex == (EXC, 'IllegalDataValue') and f.kind == 'call' and f.cs is get and q.sem_is_name(b, h, 'frame') and any('header' in p for p in h.proj)
-        c.ob('parse-error/reply', ok, 'malformed / over-limit request: the only effect is reply_with_error(frame.header, function, IllegalDataValue)', str([x.callee for x in eff]), loc_of(b, e[1]))
-    # reply_with_error wraps the function as an exception field
-    r = P.fn(REPLY_ERR)
-    d = one(r.calls(REPLY_ERR_G), 'delegation in reply_with_error')
-    av = q.sem(r, d.args[3])
-    okw = av.kind == 'agg' and av.extra.get('variant') == 'Exception' and q.is_name(r, av.extra['a'][0], 'func') and q.is_name(r, d.args[4], 'ex')
-    c.ob('reply_with_error/wrap', okw, 'reply_with_error sends FunctionField::Exception(func) with its own exception code', repr(av), d.loc())
+            ok = ex == (EXC, 'IllegalDataValue') and f is not None and f.kind == 'call' and f.cs is get and q.sem_is_name(b, h, 'frame') and any('header' in p for p in h.proj)
+        c.ob('parse-error/reply', ok, 'malformed / over-limit request: the only effect is an exception reply (frame.header, FunctionField::Exception(function), IllegalDataValue)', str([x.callee for x in eff]), loc_of(b, e[1]))
     g = P.fn(REPLY_ERR_G)
     fe = one(g.calls(FORMAT_EX), 'format_ex in reply_with_error_generic')
     okg = q.is_name(g, fe.args[1], 'header') and q.is_name(g, fe.args[2], 'func') and q.is_name(g, fe.args[3], 'ex')
@@ -405,18 +401,20 @@ def r8(c):
         c.ob('get_function/%s' % v, ok, 'Request::%s reports FunctionCode::%s' % (v, v), str([(x['kind'], x.get('variant')) for x in xs]), loc_of(gf))
         n += 1 if ok else 0
     c.exact('get_function arms', n, 8)
-    g = P.fn(GET_REPLY)
+    WR = 'rodbus::server::request::Request::get_reply::write_result'
+    # the write arms go through a local helper (write_result): look at get_reply with it expanded, so that the same
+    # obligations apply whether the Ok/Err split is written in a helper or in the arm itself
+    g = inline.expand(P, P.fn(GET_REPLY), {WR})
     c.saw(g, len(g.calls()))
     fcall = one(g.calls('rodbus::server::request::Request::get_function'), 'get_function in get_reply')
     c.ob('get_reply/function-of-self', q.is_name(g, fcall.args[0], 'self'), 'the reply function code is self.get_function()', '', fcall.loc())
-    WR = 'rodbus::server::request::Request::get_reply::write_result'
     arms = q.arms_of(g, REQ)
     m = 0
     for v in REQUESTS:
         reg = set()
         for e, r in arms.get(v, []):
             reg |= r
-        fr = [cs for cs in q.calls_in(g, reg) if cs.is_(FORMAT_REPLY, WR, FORMAT_EX, FORMAT_GENERIC)]
+        fr = [cs for cs in q.calls_in(g, reg) if cs.is_(FORMAT_REPLY, FORMAT_EX, FORMAT_GENERIC)]
         if v in READS:
             ok = len(fr) == 1 and fr[0].is_(FORMAT_REPLY)
             if ok:
@@ -433,46 +431,34 @@ def r8(c):
             c.ob('get_reply/%s/format' % v, ok, 'read reply: format_reply(header, self.get_function(), %s over the requested range, level) on the given writer' % ('BitWriter' if 'Coil' in v or 'Discrete' in v else 'RegisterWriter'),
                  str([x.callee for x in fr]), fr[0].loc() if fr else loc_of(g))
         else:
-            ok = len(fr) == 1 and fr[0].is_(WR)
+            hc = [cs for cs in q.calls_in(g, reg) if cs.declared == RH + HANDLER_METHOD[v]]
+            f_ok = [cs for cs in fr if cs.is_(FORMAT_REPLY)]
+            f_ex = [cs for cs in fr if cs.is_(FORMAT_EX)]
+            ok = len(hc) == 1 and len(fr) == 2 and len(f_ok) == 1 and len(f_ex) == 1
+            why = 'handler calls %d, format calls %s' % (len(hc), [x.callee.rsplit('::', 1)[-1] for x in fr])
             if ok:
-                cs = fr[0]
-                f = q.sem(g, cs.args[0])
-                bad = args_named(g, cs, {1: 'header', 2: 'writer', 4: 'level'})
-                # result = handler.write_x(..).map(|_| echo)
-                rs = q.sem(g, cs.args[3])
-                okr = rs.kind == 'call' and rs.cs.is_('core::result::Result::map') and q.sem(g, rs.cs.args[0]).kind == 'call' and \
-                    q.sem(g, rs.cs.args[0]).cs.declared == RH + HANDLER_METHOD[v]
-                ok = not bad and f.kind == 'call' and f.cs is fcall and okr
-            c.ob('get_reply/%s/format' % v, ok, "write reply: write_result(self.get_function(), header, writer, handler result mapped to the echo, level)", str([x.callee for x in fr]), fr[0].loc() if fr else loc_of(g))
+                # result = handler.write_x(..).map(|_| echo);  Ok(response) -> format_reply(.., &response, ..);  Err(ex) -> format_ex(.., Exception(function), ex, ..)
+                rsp = q.sem(g, f_ok[0].args[3])
+                exv = q.sem(g, f_ex[0].args[3])
+                ff = q.sem(g, f_ex[0].args[2])
+                okm = rsp.kind == 'call' and rsp.cs.is_('core::result::Result::map') and q._strip(rsp.proj, 'Ok') == () and \
+                    q.sem(g, rsp.cs.args[0]).kind == 'call' and q.sem(g, rsp.cs.args[0]).cs is hc[0]
+                oke = exv.kind == 'call' and exv.cs is rsp.cs and q._strip(exv.proj, 'Err') == ()
+                okf = q.sem(g, f_ok[0].args[2]).kind == 'call' and q.sem(g, f_ok[0].args[2]).cs is fcall and ff.kind == 'agg' and ff.extra.get('variant') == 'Exception' and \
+                    not ff.proj and q.sem(g, ff.extra['a'][0]).kind == 'call' and q.sem(g, ff.extra['a'][0]).cs is fcall
+                bad = args_named(g, f_ok[0], {0: 'writer', 1: 'header', 4: 'level'}) + args_named(g, f_ex[0], {0: 'writer', 1: 'header', 4: 'level'})
+                oc = q.outcomes(g, rsp.cs) if okm else {}
+                okd = okm and any(q.dom(g, e, f_ok[0].node) for e in oc.get('Ok', [])) and any(q.dom(g, e, f_ex[0].node) for e in oc.get('Err', []))
+                ok = okm and oke and okf and not bad and okd
+                why = 'response %r, exception %r, function field %r, misnamed %s, on-its-edge %s' % (rsp, exv, ff, bad, okd)
+            c.ob('get_reply/%s/format' % v, ok, "write reply: the handler result mapped to the echo decides: Ok(echo) -> format_reply(header, self.get_function(), echo, level), "
+                 "Err(ex) -> format_ex(header, Exception(self.get_function()), ex, level), both on the given writer", why, fr[0].loc() if fr else loc_of(g))
         m += 1 if ok else 0
         # the exit of the arm is that call's value
         xs = q.exit_in(g, reg)
         okx = bool(xs) and all(x['kind'] == 'call' and x['cs'] in fr for x in xs)
         c.ob('get_reply/%s/returns' % v, okx, 'the arm returns the formatted reply', str([x['kind'] for x in xs]), loc_of(g))
     c.exact('get_reply arms formatted', m, 8)
-    # echo closures of the write arms: `.map(|_| *request)` / `.map(|_| items.range)`
-    for v, field in (('WriteSingleCoil', None), ('WriteSingleRegister', None), ('WriteMultipleCoils', 'range'), ('WriteMultipleRegisters', 'range')):
-        pass
-    # write_result
-    w = P.fn(WR)
-    c.saw(w, len(w.calls()))
-    oc = {}
-    for e, v, info in w.variant_edges('core::result::Result'):
-        if q.sem_is_name(w, q.sem(w, info['place']), 'result'):
-            oc[v] = e
-    for v, callee, mapping in (('Ok', FORMAT_REPLY, {0: 'writer', 1: 'header', 2: 'function', 4: 'level'}), ('Err', FORMAT_EX, {0: 'writer', 1: 'header', 3: 'ex', 4: 'level'})):
-        e = oc.get(v)
-        ok = e is not None
-        if ok:
-            rs = w.reach_set(e)
-            cs_l = [cs for cs in w.calls() if cs.node in rs and cs.is_(FORMAT_REPLY, FORMAT_EX)]
-            ok = len(cs_l) == 1 and cs_l[0].is_(callee) and not args_named(w, cs_l[0], mapping)
-            if ok and v == 'Ok':
-                ok = q.is_name(w, cs_l[0].args[3], 'response')
-            if ok and v == 'Err':
-                av = q.sem(w, cs_l[0].args[2])
-                ok = av.kind == 'agg' and av.extra.get('variant') == 'Exception' and q.is_name(w, av.extra['a'][0], 'function')
-        c.ob('write_result/%s' % v, ok, 'write_result: %s -> %s with header/function/level passed through' % (v, callee.rsplit('::', 1)[-1]), '', loc_of(w))
     # handle_frame passes the request frame's header and the session's own writer
     b = hf(c)
     gr = one(b.calls(GET_REPLY), 'get_reply in handle_frame')
